@@ -31,8 +31,15 @@ func shapedInput(r *monitor.Rand, mark byte, nVar, nStr, nNested, nNested4 int, 
 			p = refwire.AppendKey(p, 1, 0)
 			p = refwire.AppendVarint(p, uint64(mark)<<16|uint64(i))
 			if i%3 != 2 {
-				p = refwire.AppendKey(p, 2, 2)
-				p = refwire.AppendLen(p, []byte{mark, 'n', byte(i)})
+				if mark%3 == 0 {
+					// this input writes nested tag 2 as a varint where others write a string: the wire type of a tag is a
+					// property of the message, a recycled result must not remember the one of an earlier input
+					p = refwire.AppendKey(p, 2, 0)
+					p = refwire.AppendVarint(p, uint64(mark)<<8|uint64(i))
+				} else {
+					p = refwire.AppendKey(p, 2, 2)
+					p = refwire.AppendLen(p, []byte{mark, 'n', byte(i)})
+				}
 			}
 			if i%2 == 0 {
 				var q []byte
@@ -51,6 +58,23 @@ func shapedInput(r *monitor.Rand, mark byte, nVar, nStr, nNested, nNested4 int, 
 		p = refwire.AppendFixed64(p, uint64(mark)<<32|uint64(i))
 		b = refwire.AppendKey(b, 4, 2)
 		b = refwire.AppendLen(b, p)
+	}
+	if r.Chance(1, 2) {
+		// declared tag 5 with a wire type that changes from input to input (one wire type within the message)
+		wt := []int{0, 5, 1, 2}[int(mark)%4]
+		for k := 1 + r.Intn(2); k > 0; k-- {
+			b = refwire.AppendKey(b, 5, wt)
+			switch wt {
+			case 0:
+				b = refwire.AppendVarint(b, uint64(mark)<<8|uint64(k))
+			case 5:
+				b = refwire.AppendFixed32(b, uint32(mark)<<8|uint32(k))
+			case 1:
+				b = refwire.AppendFixed64(b, uint64(mark)<<8|uint64(k))
+			default:
+				b = refwire.AppendLen(b, []byte{mark, 'w', byte(k)})
+			}
+		}
 	}
 	if r.Chance(1, 3) { // an undeclared field
 		b = refwire.AppendKey(b, 9, 0)
